@@ -305,6 +305,22 @@ class _ControlLoopRunner:
         else:
             raise ValueError(f"Unknown command type: {type(command)}")
 
+    async def _cancel_workers(self) -> None:
+        """Cancel step workers (started or not) and give them a moment to unwind."""
+        for p in self._pending_workers:
+            p.coro.close()
+        self._pending_workers.clear()
+        for task in self.worker_tasks:
+            task.cancel()
+        try:
+            if self.worker_tasks:
+                await asyncio.wait_for(
+                    asyncio.gather(*self.worker_tasks, return_exceptions=True),
+                    timeout=0.5,
+                )
+        except Exception:
+            pass
+
     async def cleanup_tasks(self) -> None:
         """Cancel and cleanup all running worker tasks and pending coroutines."""
         # Close pending coroutines that were never started
@@ -526,6 +542,12 @@ class _ControlLoopRunner:
             raise
 
         await self.adapter.on_tick(tick)
+
+        if any(indicates_exit(command) for command in commands):
+            # Same rule as for a returned StopEvent: stop the remaining workers
+            # first, so that nothing they write while unwinding is published
+            # after the terminal event (failure, cancellation, timeout).
+            await self._cancel_workers()
 
         for command in commands:
             try:
